@@ -65,6 +65,7 @@ def handlers : List (String × (Json → Except String Json)) := [
   ("C01.kron_csr", Qv.Drv.C01.kronCsrJ),
   ("C01.matmul_csr", Qv.Drv.C01.matmulCsrJ),
   ("C01.dia_abs", Qv.Drv.C01.diaAbsJ),
+  ("C01.matmul_dia", Qv.Drv.C01.matmulDiaJ),
   ("C01.dia_of_dense", Qv.Drv.C01.diaOfDenseJ)
 ]
 
